@@ -144,14 +144,18 @@ aggregateLoop:
 			}
 		}
 		for _, descriptor := range details.Descriptors {
-			if expressions[i].Type.Is(octosql.TypeSum(descriptor.ArgumentType, octosql.Null)) == octosql.TypeRelationMaybe {
-				assertedExprType := *octosql.TypeIntersection(octosql.TypeSum(descriptor.ArgumentType, octosql.Null), expressions[i].Type)
+			// Aggregates skip NULLs, so only the non-NULL part of the argument decides whether an overload may fit
+			// (the NULL alternative alone made every overload "maybe" fit, so the first one always won),
+			// and the run-time assertion has to let NULLs through.
+			if octosql.NonNullable(expressions[i].Type).Is(descriptor.ArgumentType) == octosql.TypeRelationMaybe {
+				targetType := octosql.TypeSum(descriptor.ArgumentType, octosql.Null)
+				assertedExprType := *octosql.TypeIntersection(targetType, expressions[i].Type)
 				expressions[i] = physical.Expression{
 					ExpressionType: physical.ExpressionTypeTypeAssertion,
 					Type:           assertedExprType,
 					TypeAssertion: &physical.TypeAssertion{
 						Expression: expressions[i],
-						TargetType: descriptor.ArgumentType,
+						TargetType: targetType,
 					},
 				}
 
